@@ -1,5 +1,6 @@
 import OrsoVerif.Model.PyVal
 import OrsoVerif.Model.Display
+import OrsoVerif.Generated.Display
 /-! Driver glue for C18: decode frames / parameters, run the display model, encode the lines. -/
 namespace Drv.C18
 open Display
@@ -36,6 +37,7 @@ def decodeCell : PyVal → Option Cell
     let ps ← strList ps
     let n ← nat? n
     pure (.interval ps n)
+  | .list [.str "interval_int", .int mo, .int d, .int sc, .int n] => (nat? n).map (.intervalInt mo d sc)
   | .list [.str "list", .list xs, .int n] => do
     let xs ← strList xs
     let n ← nat? n
@@ -47,6 +49,14 @@ def decodeRow : PyVal → Option (List Cell)
   | .list cs => cs.mapM decodeCell
   | _ => none
 
+def decodeMdCell : PyVal → Option MdCell
+  | .list [.bool isNone, .str s] => some { isNone, text := s2l s }
+  | _ => none
+
+def decodeMdRow : PyVal → Option (List MdCell)
+  | .list cs => cs.mapM decodeMdCell
+  | _ => none
+
 def encLine : Line Nat → PyVal
   | .data label row => .list [.str "d", .int label, .int row]
   | .ellipsis => .list [.str "e"]
@@ -55,12 +65,11 @@ def encTagged (l : Tagged) : PyVal := .list [.bool l.1, .str (l2s l.2)]
 
 def handle (op : String) (args : List PyVal) : Option (List PyVal) :=
   match op, args with
-  | "visible", [.int n, .int limit, .bool tt, .bool lazy, .bool fixed] => do
+  | "visible", [.int n, .int limit, .bool tt, .bool lazy] => do
     let n ← nat? n
     let limit ← nat? limit
     let rows := List.range n
-    let lines := if lazy then lazyLines rows limit tt else eagerLines rows limit tt fixed
-    pure [.list (lines.map encLine), .int (indexWidth n limit tt lazy rows)]
+    pure [.list ((visibleRows srcArith rows limit tt lazy).map encLine), .int (indexWidth srcArith n limit tt lazy rows)]
   | "render", [.int limit, .bool tt, .bool lazy, .bool showTypes, .int maxCol, .int dw, .bool strict,
                .list names, .list types, .list rows] => do
     let limit ← nat? limit
@@ -71,8 +80,8 @@ def handle (op : String) (args : List PyVal) : Option (List PyVal) :=
     let rows ← rows.mapM decodeRow
     let p : Params := { limit, tt, lazy, showTypes, maxCol, displayWidth := dw, strict }
     let f : Frame := { names, types, rows }
-    match renderLines cwModel p f with
-    | .ok ls => pure [.str "ok", .list (ls.map encTagged), .int (tableWidth (idxWidth p f) (colWidths p f))]
+    match renderLines srcArith cwModel p f with
+    | .ok ls => pure [.str "ok", .list (ls.map encTagged), .int (tableWidth (idxWidth srcArith p f) (colWidths srcArith p f))]
     | .error .unicodeDecode => pure [.str "err", .str "UnicodeDecodeError"]
   | "decode", [.bytes b] =>
     let enc (r : Except Err Str) : PyVal :=
@@ -82,6 +91,15 @@ def handle (op : String) (args : List PyVal) : Option (List PyVal) :=
     pure [enc (utf8Decode true b), enc (utf8Decode false b)]
   | "cw", [.str s] => pure [.list (s.toList.map fun c => .int (cwModel c))]
   | "pwidth", [.str s] => pure [.int (pwidth s.toList)]
+  | "colorize", [.bool on, .str s] => pure [.str (l2s (colorize Gen.Display.colors on s.toList))]
+  | "markdown", [.int limit, .int maxCol, .list names, .list rows] => do
+    let limit ← nat? limit
+    let maxCol ← nat? maxCol
+    let names ← strList names
+    let rows ← rows.mapM decodeMdRow
+    pure [.list ((markdownLines srcArith limit maxCol { names, rows }).map fun l => .str (l2s l.text))]
+  | "interval", [.int months, .int days, .int secs] =>
+    pure [.list ((intervalParts srcArith months days secs).map fun p => .str (l2s p))]
   | _, _ => none
 
 end Drv.C18
